@@ -360,22 +360,35 @@ func reaches(from, to, stop *ssa.BasicBlock) bool {
 
 // loopHasStateExit: some block of the loop headed by h tests the decoder state (remain / err) and can leave the loop.
 func (st *taintState) loopHasStateExit(h *ssa.BasicBlock) bool {
-	// natural loop: blocks that reach h without leaving through h's exit
-	inLoop := map[*ssa.BasicBlock]bool{h: true}
-	var stack []*ssa.BasicBlock
-	for _, p := range h.Preds {
-		if h.Dominates(p) {
-			stack = append(stack, p)
+	// the loop containing h: the blocks on a cycle through h (h need not be the header: `a && i < n` tests the
+	// state condition a first)
+	fwd := map[*ssa.BasicBlock]bool{}
+	var f func(b *ssa.BasicBlock)
+	f = func(b *ssa.BasicBlock) {
+		for _, s := range b.Succs {
+			if !fwd[s] {
+				fwd[s] = true
+				f(s)
+			}
 		}
 	}
-	for len(stack) > 0 {
-		b := stack[len(stack)-1]
-		stack = stack[:len(stack)-1]
-		if inLoop[b] {
-			continue
+	f(h)
+	bwd := map[*ssa.BasicBlock]bool{}
+	var g func(b *ssa.BasicBlock)
+	g = func(b *ssa.BasicBlock) {
+		for _, p := range b.Preds {
+			if !bwd[p] {
+				bwd[p] = true
+				g(p)
+			}
 		}
-		inLoop[b] = true
-		stack = append(stack, b.Preds...)
+	}
+	g(h)
+	inLoop := map[*ssa.BasicBlock]bool{h: true}
+	for b := range fwd {
+		if bwd[b] {
+			inLoop[b] = true
+		}
 	}
 	for b := range inLoop {
 		iff, ci := IfCond(b)
